@@ -386,12 +386,13 @@ where
                                         );
                                     }
                                 };
-                                let pixel_data = last_delimiter.pixel_data;
-                                self.push_sequence_token(SeqTokenType::Item, len, pixel_data);
+                                self.push_sequence_token(
+                                    SeqTokenType::Item,
+                                    len,
+                                    last_delimiter.pixel_data,
+                                );
                                 // items can be empty
-                                // (but an empty pixel data fragment
-                                // still yields its zero-length value)
-                                if len == Length(0) && !pixel_data {
+                                if len == Length(0) {
                                     self.delimiter_check_pending = true;
                                 }
                                 Some(Ok(DataToken::ItemStart { len }))
